@@ -71,10 +71,30 @@ def rule_params(repo: Repo, rep: Report, cname: str, param: str) -> int:
     init = repo.func(DG, f"{cname}.__init__")
     asg = [s for s in stmts_of(init.body) if isinstance(s, ast.Assign) and attr_chain(s.targets[0]) == f"self.{param}"]
     ok = len(asg) == 1 and (match(asg[0].value, f"to_tensor({param})") is not None or match(asg[0].value, param) is not None or match(asg[0].value, f"torch.tensor({param})") is not None)
-    rep.check(ok, "PARAM", init, f"self.{param} = {unparse(asg[0].value) if asg else '?'}", "configured probability stored unchanged", "the stored probability is not the configured one", node=asg[0] if asg else init.node)
+    wrong_p = len(asg) == 1 and any(isinstance(x, (ast.BinOp, ast.Constant)) for x in ast.walk(asg[0].value) if not (isinstance(x, ast.Constant) and isinstance(x.value, str)))
+    rep.shape(ok, wrong_p, "PARAM", init, f"self.{param} = {unparse(asg[0].value) if asg else '?'}", "configured probability stored unchanged", "the stored probability is not the configured one", node=asg[0] if asg else init.node)
     val = [s for s in stmts_of(init.body) if isinstance(s, ast.If) and any(isinstance(x, ast.Raise) for x in s.body)]
     okv = any(unparse(s.test) in (f"not 0 <= {param} <= 1", f"{param} < 0 or {param} > 1", f"not 0.0 <= {param} <= 1.0") for s in val)
-    rep.check(okv, "PARAM", init, f"range check: {[unparse(s.test) for s in val]}", "probabilities outside [0, 1] are rejected", "the probability is not validated to lie in [0, 1]")
+    # semantic evaluation of the validation test on sample values instead of a text match
+    from ..constfold import Folder, Unfoldable
+
+    def rejects(test, v):
+        try:
+            return bool(Folder({param: v}).fold(test))
+        except Unfoldable:
+            return None
+
+    verdicts = []
+    for s_ in val:
+        rs = [rejects(s_.test, v) for v in (-0.1, 0.0, 0.3, 1.0, 1.1)]
+        verdicts.append(rs)
+    okv = okv or any(rs == [True, False, False, False, True] for rs in verdicts)
+    wrong_v = (not okv) and any(None not in rs and rs != [True, False, False, False, True] for rs in verdicts) and bool(verdicts)
+    helper_calls = [c for c in ast.walk(init.node) if isinstance(c, ast.Call) and any(isinstance(a, ast.Name) and a.id == param for a in c.args) and (call_name(c) or "").split(".")[-1] not in ("to_tensor", "tensor", "__init__", "register_buffer", "float", "as_tensor")]
+    asserts = [a for a in ast.walk(init.node) if isinstance(a, ast.Assert) and param in unparse(a.test)]
+    if not val and not helper_calls and not asserts:
+        wrong_v = True
+    rep.shape(okv, wrong_v, "PARAM", init, f"range check: {[unparse(s.test) for s in val]}", "probabilities outside [0, 1] are rejected", "the validation accepts a value outside [0, 1] or rejects an admissible one (evaluated on -0.1, 0, 0.3, 1, 1.1)")
     return 2
 
 
@@ -120,7 +140,7 @@ def rule_bipolar(rep: Report, fi: FuncInfo) -> int:
         # the back conversion is the last thing before the return
         idx = fi.body.index(guards[1])
         tail = [x for x in fi.body[idx + 1 :]]
-        rep.check(len(tail) == 1 and isinstance(tail[0], ast.Return) and unparse(tail[0].value) == tgt, "BIPOLAR", fi, f"return after conversion: {unparse(tail[0]) if tail else ''}", "converted output returned unchanged", "the output is modified after the conversion back")
+        rep.shape(len(tail) == 1 and isinstance(tail[0], ast.Return) and unparse(tail[0].value) == tgt, False, "BIPOLAR", fi, f"return after conversion: {unparse(tail[0]) if tail else ''}", "converted output returned unchanged", "the output is modified after the conversion back")
         n += 1
     else:
         rep.undecided("BIPOLAR", fi, "conversion blocks", "unexpected shape")
@@ -215,7 +235,7 @@ def rule_bsc(repo: Repo, rep: Report) -> int:
         if flips:
             fe = inl.inline(flips[0].value)
             ok = isinstance(fe, ast.Call) and isinstance(fe.func, ast.Attribute) and fe.func.attr in ("float", "to", "int", "long", "type") and isinstance(fe.func.value, ast.Compare)
-            rep.check(ok, "TRANSITION", fi, f"flip indicator: {unparse(fe)[:120]}", "0/1 indicator of the Bernoulli event", "flips is not the 0/1 indicator of the Bernoulli comparison", node=flips[0])
+            rep.shape(ok, False, "TRANSITION", fi, f"flip indicator: {unparse(fe)[:120]}", "0/1 indicator of the Bernoulli event", "flips is not the 0/1 indicator of the Bernoulli comparison", node=flips[0])
         n += 2
     n += rule_bipolar(rep, fi)
     n += rule_params(repo, rep, "BinarySymmetricChannel", "crossover_prob")
@@ -242,7 +262,7 @@ def rule_bec(repo: Repo, rep: Report) -> int:
         n += 1
     rep.floor("BEC stores", len(stores), 1)
     rets = returns_of(fi.node)
-    rep.check(len(rets) == 1 and unparse(rets[0].value) == "y", "TRANSITION", fi, f"BEC returns {unparse(rets[0].value) if rets else '?'}", "the masked copy", "BEC does not return the masked copy")
+    rep.shape(len(rets) == 1 and unparse(rets[0].value) == "y", len(rets) == 1 and unparse(rets[0].value) == "x", "TRANSITION", fi, f"BEC returns {unparse(rets[0].value) if rets else '?'}", "the masked copy", "BEC does not return the masked copy")
     n += 1 + rule_params(repo, rep, "BinaryErasureChannel", "erasure_prob")
     return n
 
@@ -314,7 +334,7 @@ def rule_bipolar_z(rep: Report, fi: FuncInfo) -> int:
         n += 1
     idx = fi.body.index(guards[1])
     tail = fi.body[idx + 1 :]
-    rep.check(len(tail) == 1 and isinstance(tail[0], ast.Return) and unparse(tail[0].value) == "y", "BIPOLAR", fi, "return y right after the conversion back", "converted output returned unchanged", "the output is modified after the conversion back")
+    rep.shape(len(tail) == 1 and isinstance(tail[0], ast.Return) and unparse(tail[0].value) == "y", False, "BIPOLAR", fi, "return y right after the conversion back", "converted output returned unchanged", "the output is modified after the conversion back")
     return n + 1
 
 
